@@ -138,6 +138,8 @@ func (c *Cfg) OpString(op wx.Op) string {
 		return fmt.Sprintf("%s(%s, rel=%s, target=%s, v%d)", n, c.setName(op.A), c.compName(op.B), slotName(op.C), op.D)
 	case OpNewBatch, OpNewBatchQ:
 		return fmt.Sprintf("%s(%s, n=%d, target=%s, v%d)", n, c.setName(op.A), op.B, slotName(op.C), op.D)
+	case OpNewBatchRel:
+		return fmt.Sprintf("Builder(%s).WithRelation(%s).NewBatch(1, target=%s)", c.setName(op.A), c.compName(op.B), slotName(op.C))
 	case OpNewBatchZero:
 		return fmt.Sprintf("%s(%s, n=%d)", n, c.setName(op.A), op.B)
 	case OpNewEntityDup:
